@@ -152,6 +152,17 @@ CHECKS = {
         note=MM + "; an explicit offset is honoured exactly even when not size-aligned (as the property states).",
         technique="TLA+ spec of the API + TLC model checking; histories replayed on real objects; TLC trace validation",
         design="5 (C17)"),
+    "C11": dict(
+        text=("specs/CsrReg.tla defines the packing recursively over arbitrarily nested field collections; TLC "
+              "model-checks CsrReg_MC (single field, dicts, lists, list of dicts inside a dict, zero-width fields; "
+              "every assignment of r/w/rw/nc to the leaves; register access r/w/rw; all values) against the "
+              "per-field statement (width = sum, consecutive LSB-first slices, zero contribution of non-readable "
+              "fields, strobe fan-out by access mode, refused iff incompatible); exported vectors are applied to "
+              "real csr.Register objects built three ways over probe field actions; random nested trees with "
+              "signed/enum/zero-width shapes are validated by TLC."),
+        note=TB + "; this property is combinational: TLC enumerates shapes and values rather than exploring behaviours.",
+        technique="TLA+ spec (recursive packing) + TLC enumeration; exported vectors replayed on the real design; TLC trace validation",
+        design="5 (C11)"),
 }
 
 PENDING = "check not built yet in this round; see DESIGN.md section 13 for the build order"
